@@ -142,12 +142,72 @@ func genFields(r *vh.Rand, kind string) string {
 	return h(genLen(r))
 }
 
+// extStart returns the offset of the 2-byte extensions length of a hello message (or -1).
+func extStart(kind string, m []byte) int {
+	if (kind != "chl" && kind != "shl") || len(m) < 39 {
+		return -1
+	}
+	o := 39 + int(m[38])
+	if kind == "chl" {
+		if o+2 > len(m) {
+			return -1
+		}
+		o += 2 + (int(m[o])<<8 | int(m[o+1]))
+		if o+1 > len(m) {
+			return -1
+		}
+		o += 1 + int(m[o])
+	} else {
+		o += 3
+	}
+	if o+2 > len(m) {
+		return -1
+	}
+	return o
+}
+
+// truncFix cuts a hello message at offset k inside its extension area and repairs the OUTER length fields
+// (extensions length, length of the extension that contains k), so that the cut is only visible to the
+// checks inside that extension.
+func truncFix(kind string, m []byte, k int) []byte {
+	e := extStart(kind, m)
+	if e < 0 || k < e+2 || k > len(m) {
+		return nil
+	}
+	out := append([]byte(nil), m[:k]...)
+	n := k - (e + 2)
+	out[e], out[e+1] = byte(n>>8), byte(n)
+	o := e + 2
+	for o+4 <= len(m) {
+		l := int(m[o+2])<<8 | int(m[o+3])
+		if k >= o+4 && k <= o+4+l {
+			n := k - (o + 4)
+			out[o+2], out[o+3] = byte(n>>8), byte(n)
+			break
+		}
+		o += 4 + l
+	}
+	return out
+}
+
 // mutateK is mutate with half of the truncations placed on a structural boundary of the message
 func mutateK(r *vh.Rand, kind string, m []byte) []byte {
-	if r.Chance(1, 3) {
+	if r.Chance(1, 2) {
 		bs := boundaries(kind, m)
 		k := bs[r.Intn(len(bs))]
 		if k >= 0 && k <= len(m) {
+			switch r.Intn(4) {
+			case 0: // cut with the outer lengths repaired
+				if t := truncFix(kind, m, k); t != nil {
+					return t
+				}
+			case 1: // perturb the byte at the boundary (a length prefix more often than not)
+				if k < len(m) {
+					out := append([]byte(nil), m...)
+					out[k] = []byte{out[k] + 1, out[k] - 1, 0xff, 0, out[k] + 2}[r.Intn(5)]
+					return out
+				}
+			}
 			return append([]byte(nil), m[:k]...)
 		}
 	}
@@ -343,6 +403,9 @@ func boundaries(kind string, m []byte) []int {
 	}
 	o := 39 + int(m[38])
 	b = append(b, o-1, o, o+1, o+2)
+	for i := 40; i < o; i += 3 { // inside the session id: the message is long enough for the len < 42 test only
+		b = append(b, i)
+	}
 	if kind == "chl" {
 		if o+2 > len(m) {
 			return b
@@ -427,6 +490,16 @@ func main() {
 			emit("rt " + k + " " + full[k])
 			for i := 0; i <= len(m); i++ {
 				emit("um " + k + " " + vh.Hex(m[:i]))
+				if t := truncFix(k, m, i); t != nil {
+					emit("um " + k + " " + vh.Hex(t))
+				}
+				if i < len(m) && i >= 38 { // every byte from the session id length on: +1 and 0xff
+					for _, v := range []byte{m[i] + 1, 0xff} {
+						t := append([]byte(nil), m...)
+						t[i] = v
+						emit("um " + k + " " + vh.Hex(t))
+					}
+				}
 			}
 			for j := 0; j < 2; j++ {
 				fl, _ := parseFields(k, genFields(r, k))
